@@ -95,7 +95,7 @@ TrBody ==
 TrRset == /\ Cmd("rset") /\ Rset /\ Done
 TrHarmless == /\ Is("cmd") /\ Ev.c \in {"noop", "vrfy"} /\ Harmless /\ Done
 TrRefused == /\ Is("cmd") /\ Ev.c \in {"unimpl", "unknown", "short", "empty", "garbage", "long", "starttls",
-                                      "authother", "authplainnoarg"}
+                                      "authother", "authplainnoarg", "authbare"}
              /\ Refused /\ Done
 TrAuthPlain == /\ Cmd("authplain") /\ Auth("plain") /\ Done
 TrAuthLogin == /\ Cmd("authlogin") /\ Auth("login") /\ Done
